@@ -20,6 +20,7 @@ import EvalexprVerif.Proofs.NoPanic
 import EvalexprVerif.Proofs.BuiltinMeets
 import EvalexprVerif.Proofs.AgreePanic
 import EvalexprVerif.Proofs.ParseLoose
+import EvalexprVerif.Proofs.AgreeFnTree
 
 namespace Evalexpr.Spec.C01
 open Evalexpr Evalexpr.Spec
@@ -57,6 +58,33 @@ theorem C01_depth_string (s : List Char) (t : Node) (h : buildOperatorTree s = .
     have h1 := C01_depth ts t h
     have h2 := Evalexpr.Spec.tokenize_length s ts ht
     omega
+
+/-! ### the same about the code AS TRANSLATED on this run
+
+`Generated/FnOperator.lean` / `FnTree.lean` are the bodies of `Operator::eval`, `Operator::eval_mut`,
+`Node::eval_with_context` and `Node::eval_with_context_mut` rendered by `translate_fn.py`, with every slice index
+(`arguments[0]`, `arguments[1]`), `unwrap()` and `unreachable!()` of the Rust text kept as an explicit panic outcome
+(`Rs.index`, `Rs.unwrap`, `Rs.panic`). Through the agreement theorems the no-panic theorems above are statements about
+that text: none of these sites can fire, for any tree (also hand-built, wrong-arity ones), argument list and context. -/
+
+theorem C01_generated_eval_ro (n : Node) (s : St) (hc : NoPanicCtx s.ctx) :
+    (Gen.Node.eval_with_context n s).1.isPanic = false := by
+  rw [AgreeFn.fn_Node_eval_with_context_agree]; exact (C01_eval_ro n s hc).1
+theorem C01_generated_eval_mut (n : Node) (s : St) (hc : NoPanicCtx s.ctx) :
+    (Gen.Node.eval_with_context_mut n s).1.isPanic = false := by
+  rw [AgreeFn.fn_Node_eval_with_context_mut_agree]; exact (C01_eval_mut n s hc).1
+/-- the operator application alone, on ANY argument list (wrong lengths included: the index sites are guarded) -/
+theorem C01_generated_operator_eval (op : Operator) (args : List Value) (s : St) (hc : NoPanicCtx s.ctx) :
+    (Gen.Operator.eval_mut op args s).1.isPanic = false := by
+  rw [AgreeFn.fn_Operator_eval_mut_agree]
+  have h := C01_eval_mut ⟨op, args.map (fun v => ⟨.const v, []⟩)⟩ s hc
+  have hl : ∀ (vs : List Value) (s : St), evalMutList (vs.map (fun v => (⟨.const v, []⟩ : Node))) s = (.ok vs, s) := by
+    intro vs
+    induction vs with
+    | nil => intro s; rfl
+    | cons v vs ih => intro s; simp [evalMutList, Node.evalMut, ih, Operator.evalMut, Operator.eval, Operator.evalPure]
+  simp only [Node.evalMut, hl] at h
+  exact h.1
 
 /-- the three provided kinds of context satisfy the hypothesis when their user functions do -/
 example : NoPanicCtx .empty := fun _ _ _ h => by cases h
